@@ -242,7 +242,7 @@ func init() {
 		},
 		Phases: plainPhase("headers"),
 		Run: func(c *mon.Ctx) {
-			variants := c.Pick(4, 96)
+			variants := c.Pick(4, 800)
 			ev := c.Counter("evaluations")
 			nt := c.DistinctSet("nontrivial")
 			msSeen := c.DistinctSet("millisecond_values")
